@@ -283,4 +283,9 @@ def main(run):
         print(f'MACHINERY-FAILURE {args.pid}: {ex}', file=sys.stderr)
         print(f'MACHINERY-FAILURE {args.pid}: {ex}')
         sys.exit(2)
+    finally:
+        # scratch space of a run against another tree (seeded change) is not kept
+        w = os.environ.get('VERIF_WORK', '')
+        if os.environ.get('VERIF_REPO_PY') and '.alt' in os.path.basename(w) and not os.environ.get('VERIF_KEEP'):
+            shutil.rmtree(w, True)
     sys.exit(rc)
